@@ -1,38 +1,80 @@
-import CifModel.Lemmas.Serialize
-import CifModel.Model.Value
+import CifModel.Props.C07
+import CifModel.Lemmas.NamesBridge
+import CifModel.Props.C09
 /-
-  Property C09 — tables that travel through a managed CIF (kept apart from Props/C09Api.lean because the lemma files of the store
-  refinement and of the value columns, by different groups, cannot be imported into one module; `deserialize_ser` is the
-  lemma behind `C07_serialize_roundtrip`).
+  Property C09 — a table that travels through a managed CIF.  The store model composes `cif_container_set_value` with the value codec
+  (`Store.Codec.setValueC`: the value is turned into its SQL columns — for a table: `cif_value_serialize` into the blob column — and what
+  is stored is what the columns decode to); `C07_stored_read_identical` shows that `cif_container_get_value` then delivers the identical
+  value.  Here that is combined with the bridge between the two map models (Lemmas/NamesBridge.lean), so that the statements of
+  `C09_table_keys`, `C09_table_enumeration`, `C09_table_keys_case_significant` — which are about `Normalize.Entries` — speak about the
+  table READ BACK from the store.
 -/
 namespace CifModel
-open Model
+open Model Lemmas.Names CifModel.Store CifModel.Store.Codec
 
-/-- **C09, a table that has been stored in a managed CIF and read back is the same table** — for the matching of its keys this is the
-    serialisation round trip of property C07 (`cif_table_serialize` writes, per entry, the normalised key AND the original spelling;
-    `cif_table_deserialize` reads both back): the value that comes out has the same entries — same normalised keys, same spellings, same
-    values, same order —, hence look-up under any spelling, `cif_value_get_keys` and every later set / remove behave exactly as on the
-    table that was stored (all statements of `C09_table_keys`, `C09_table_enumeration`, `C09_table_keys_case_significant` carry over
-    verbatim).  Tied to value.c by family `norm map` ops `S` (set_value / get_value) and `P` (loop packet / packet iterator). -/
-theorem C09_table_survives_store (parse : Str → Option Model.Serialize.NumbFields) (es : List (Str × Str × V))
+/-- the serialisation round trip of a table (what the blob column of `item_value` holds): normalised key AND original spelling of every
+    entry are written and read back (the lemma behind `C07_serialize_roundtrip`, restated for tables) -/
+theorem C09_table_serialisation_roundtrip (parse : Str → Option Model.Serialize.NumbFields) (es : List (Str × Str × V))
     (h : Model.Columns.numbsParse parse (.tbl es) = true) :
-    Model.Serialize.deserialize parse (Model.Serialize.ser (.tbl es)) = some (.tbl es, []) ∧
-    (∀ (t : V), Model.Serialize.deserialize parse (Model.Serialize.ser (.tbl es)) = some (t, []) →
-      (∀ norm key, Value.tableGet norm t key = Value.tableGet norm (.tbl es) key) ∧
-      Value.tableKeys t = Value.tableKeys (.tbl es) ∧
-      (∀ norm key x, Value.tableSet norm t key x = Value.tableSet norm (.tbl es) key x) ∧
-      (∀ norm key, Value.tableRemove norm t key = Value.tableRemove norm (.tbl es) key)) := by
-  have hr := Model.Serialize.deserialize_ser parse (.tbl es) h
-  refine ⟨hr, ?_⟩
-  intro t ht
-  rw [hr] at ht
-  cases ht
-  exact ⟨fun _ _ => rfl, rfl, fun _ _ _ => rfl, fun _ _ => rfl⟩
+    Model.Serialize.deserialize parse (Model.Serialize.ser (.tbl es)) = some (.tbl es, []) :=
+  Model.Serialize.deserialize_ser parse (.tbl es) h
 
-/-- instance: a table keyed `Å` under the spelling `A + ring`, with a character value -/
-example : Model.Serialize.deserialize (fun _ => none) (Model.Serialize.ser (.tbl [([197], [65, 778], .chr true [49])]))
-    = some (.tbl [([197], [65, 778], .chr true [49])], []) :=
-  (C09_table_survives_store (fun _ => none) [([197], [65, 778], .chr true [49])] (by decide)).1
+/-- **C09_table_survives_store** — about the STORE MODEL.  In every state satisfying the store invariant (outside a transaction), for a
+    valid data name `n` and a table `es` of constructible values whose normalised keys are pairwise different and are the NFC forms of
+    their spellings (`KeyedBy U.nfc`, what `cif_value_set_item_by_key` maintains — `C09_map_invariant`): after
+    `cif_container_set_value(h, n, table)` — item new (scalar loop created) or existing in a loop with packets —
+    `cif_container_get_value(h, n)` delivers a value `t` on which the table entry points of the value model, with the C09 table
+    normaliser, answer EXACTLY what `Normalize`'s map operations answer on the entries that were stored:
+    look-up under every spelling (`Entries.get`), set under every spelling — an equivalent one replaces in place and records the new
+    spelling — (`Entries.set`), remove (`Entries.remove`), enumeration (`Entries.keys`).  Hence `C09_table_keys` (found iff NFC equal,
+    case significant), `C09_table_enumeration` (the spelling most recently entered is the one enumerated, one entry per normal form)
+    hold of the table read back from the store, with `es` the table that was stored. -/
+theorem C09_table_survives_store (U : UnicodeOps) (s : Store.Store) (hinv : InvS s) (h : CH) (n : Store.Name) (es : List (Str × Str × V))
+    (hc : C07_constructible (.tbl es)) (hf : C07_fits (.tbl es)) (hv : n.valid = true) (hac : s.autocommit = true)
+    (hk : KeyedBy U.nfc es)
+    (hroute : (getItemLoopInternal s.db h.id n.key = .error Gen.ErrCodes.CIF_NOSUCH_ITEM ∧ (setValueC s h n (.tbl es)).2 = .ok ()) ∨
+      (∃ l ln, getItemLoopInternal s.db h.id n.key = .ok l ∧ s.db.loopOfItem h.id n.key = some ln ∧ s.db.loopRows h.id ln ≠ [])) :
+    ∃ t b, (getValue (setValueC s h n (.tbl es)).1 h (some n)).2 = .ok (t, b) ∧
+      (∀ key, Value.tableGet (tableNorm U) t key
+          = Entries.get es (fun k => normalizeTableIndex U k Value.NOSUCH_ITEM) key Value.NOSUCH_ITEM) ∧
+      (∀ key x, Value.tableSet (tableNorm U) t key (some x)
+          = (Entries.set es (fun k => normalizeTableIndex U k Value.INVALID_INDEX) key x).map V.tbl) ∧
+      (∀ key, (Value.tableRemove (tableNorm U) t key).map (·.1)
+          = (Entries.remove es (fun k => normalizeTableIndex U k Value.NOSUCH_ITEM) key Value.NOSUCH_ITEM).map V.tbl) ∧
+      Value.tableKeys t = .ok (Entries.keys es) := by
+  have hread : ∃ b, (getValue (setValueC s h n (.tbl es)).1 h (some n)).2 = .ok (.tbl es, b) := by
+    obtain ⟨c1, c2, _⟩ := C07_stored_read_identical s hinv
+    rcases hroute with ⟨hnew, hok⟩ | ⟨l, ln, hl, hln, hrows⟩
+    · exact (c2 h n (.tbl es) hc hf hv hac hnew hok).2
+    · obtain ⟨ln', hln', _, _, hget⟩ := c1 h n (.tbl es) l hc hf hv hac hl
+      rw [hln] at hln'
+      cases hln'
+      exact hget hrows
+  obtain ⟨b, hb⟩ := hread
+  exact ⟨.tbl es, b, hb, fun key => tableGet_bridge U es key, fun key x => tableSet_bridge U es key x hk.1,
+    fun key => tableRemove_bridge U es key hk.1, tableKeys_bridge es⟩
 
+-- non-vacuity ------------------------------------------------------------------------------------------------------------
+namespace C09Store
+/-- one block; the table has the key `Á` entered under the spelling `A ´` (NFC of `composeU` composes it) and the key `b` -/
+def sB : Store.Store := (createBlock {} (some (apiName composeU false [98]))).1
+def hB : CH := { id := 1, code := [98], isBlock := true }
+def tblA : List (Str × Str × V) := [([193], [65, 769], .chr true [49]), ([98], [98], .unk)]
+theorem invB : InvS sB := createBlock_invS InvS.empty _ _
+theorem conA : C07_constructible (.tbl tblA) := by simp [tblA, C07_constructible, C07_constructibleEntries]
+theorem fitA : C07_fits (.tbl tblA) := by unfold C07_fits; decide
+theorem keyedA : KeyedBy composeU.nfc tblA := ⟨by decide, by intro e he; simp [tblA] at he; rcases he with rfl | rfl <;> rfl⟩
+theorem okA : (setValueC sB hB (apiName composeU true [95, 116]) (.tbl tblA)).2 = .ok () := by
+  rw [setValueC_wf _ _ _ _ (C07_constructible_wf _ conA fitA)]
+  rfl
+
+/-- every hypothesis of `C09_table_survives_store` holds (new item `_t` of the block), and its conclusion gives: on the table READ BACK
+    from the store, the composed spelling `Á` finds the value entered under `A ´` -/
+example : ∃ t b, (getValue (setValueC sB hB (apiName composeU true [95, 116]) (.tbl tblA)).1 hB (some (apiName composeU true [95, 116]))).2 = .ok (t, b) ∧
+    Value.tableGet (tableNorm composeU) t [193] = .ok (.chr true [49]) := by
+  obtain ⟨t, b, h1, h2, _⟩ := C09_table_survives_store composeU sB invB hB (apiName composeU true [95, 116]) tblA conA fitA (by decide)
+    (by rfl) keyedA (Or.inl ⟨by rfl, okA⟩)
+  exact ⟨t, b, h1, by rw [h2]; rfl⟩
+end C09Store
 
 end CifModel
